@@ -60,8 +60,9 @@ Definition clip (blo bhi : option R) (cur nxt : R) : R :=
 
 Definition sgn_lt0 (a b : R) : bool := if Rlt_dec (a * b) 0 then true else false.
 
-(* roll the iterates, convergence test *)
-Definition finish (c : cfg) (s : st) (fx r0 r1 g0 g1 : R) (b : bool) (nxt : R) : sres :=
+(* roll the iterates, convergence test; [ait] = this pass was an Aitken extrapolation, which never
+   decides convergence:  if (abs < atol) & (rel < rtol) and not aitken_step: break *)
+Definition finish (c : cfg) (ait : bool) (s : st) (fx r0 r1 g0 g1 : R) (b : bool) (nxt : R) : sres :=
   let blo := if b then Some r0 else c_lo c in
   let bhi := if b then Some r1 else c_hi c in
   let n := clip blo bhi (x2 s) nxt in
@@ -69,7 +70,8 @@ Definition finish (c : cfg) (s : st) (fx r0 r1 g0 g1 : R) (b : bool) (nxt : R) :
   let ad := Rabs (n - x2 s) in
   if Req_EM_T scale 0 then SFail DivZero
   else if Rlt_dec ad (c_atol c) then
-         if Rlt_dec (ad / scale) (c_rtol c) then SDone n
+         if Rlt_dec (ad / scale) (c_rtol c) then
+           if ait then SCont (mkst (x1 s) (x2 s) n fx r0 r1 g0 g1 b) else SDone n
          else SCont (mkst (x1 s) (x2 s) n fx r0 r1 g0 g1 b)
        else SCont (mkst (x1 s) (x2 s) n fx r0 r1 g0 g1 b).
 
@@ -116,7 +118,7 @@ Section Solver.
         (* Aitken step: bounds and root_bounded are left untouched *)
         match aitken_next s with
         | None => SFail DivZero
-        | Some nxt => finish c s fx (rb0 s) (rb1 s) (fb0 s) (fb1 s) (bnd s) nxt
+        | Some nxt => finish c true s fx (rb0 s) (rb1 s) (fb0 s) (fb1 s) (bnd s) nxt
         end
       else
         let '(r0, g0, r1, g1) := upd_bracket s fx in
@@ -126,9 +128,9 @@ Section Solver.
         | Some None => SFail DivZero
         | Some (Some d) =>
           if Req_EM_T d 0 then
-            if b then finish c s fx r0 r1 g0 g1 b (x2 s + (r1 - r0) / 2 * c_relax c)
+            if b then finish c false s fx r0 r1 g0 g1 b (x2 s + (r1 - r0) / 2 * c_relax c)
             else SFail Stationary
-          else finish c s fx r0 r1 g0 g1 b (x2 s + - fx / d * c_relax c)
+          else finish c false s fx r0 r1 g0 g1 b (x2 s + - fx / d * c_relax c)
         end
     end.
 
